@@ -130,8 +130,12 @@ def run_case(case):
         sinfo = {"type": "image", "data_type": sdt, "num_channels": nch, "scales": scales}
         scfg = shardlib.gen_config(rnd, "quick")
         if src_sharded:
+            # sharding parameters are a property of each scale: half of the sharded
+            # datasets give every scale its own triple and encodings
+            per_scale = rnd.random() < 0.5
             for sc in sinfo["scales"]:
-                sc["sharding"] = shardlib.sharding_of(scfg)
+                sc["sharding"] = shardlib.sharding_of(
+                    shardlib.gen_config(rnd, "quick") if per_scale else scfg)
         sopts = {"flat": rnd.random() < 0.5, "gzip": rnd.random() < 0.5}
         src = os.path.join(top, "src")
         acc = accessor_mod.get_accessor_for_url(src, {"sharding": True} if src_sharded
@@ -175,6 +179,9 @@ def run_case(case):
                 dcfg.update({"minishard_bits": rnd.choice([0, 1]), "shard_bits": 7,
                              "preshift_bits": rnd.choice([0, 1])})
                 obs["many_shards_destinations"] = 1
+            per_scale_dst = dst_sharded and not many and rnd.random() < 0.5
+            if per_scale_dst and len(dinfo["scales"]) > 1:
+                obs["destinations_with_per_scale_sharding"] = 1
             for sc in dinfo["scales"]:
                 sc["encoding"] = denc
                 sc.pop("compressed_segmentation_block_size", None)
@@ -183,7 +190,8 @@ def run_case(case):
                     sc["compressed_segmentation_block_size"] = [rnd.choice([1, 2, 4, 8])
                                                                 for _ in range(3)]
                 if dst_sharded:
-                    sc["sharding"] = shardlib.sharding_of(dcfg)
+                    sc["sharding"] = shardlib.sharding_of(
+                        shardlib.gen_config(rnd, "quick") if per_scale_dst else dcfg)
             os.makedirs(dst)
             with open(os.path.join(dst, "info"), "w") as f:
                 json.dump(dinfo, f)
@@ -292,6 +300,8 @@ def gates(obs, tier):
         "encoding_changes": obs.get("encoding_change", 0) > 10,
         "multi_scale": obs.get("scales", 0) > obs.get("conversions", 0),
         "destinations_with_more_than_64_shards": obs.get("many_shards_destinations", 0) > 0,
+        "destinations_with_per_scale_sharding": obs.get(
+            "destinations_with_per_scale_sharding", 0) > 5,
         "monitors_active_inside_the_command_processes": obs.get("child_processes", 0) > 50
         and obs.get("child_write_chunk_events", 0) > 1000
         and obs.get("child_contract_evaluations", {}).get("compressed_morton_code", 0) > 100,
